@@ -1,5 +1,6 @@
 import PlasVerif.Driver.Util
 import PlasVerif.Model.Escape
+import PlasVerif.Model.TemplateExpr
 import PlasVerif.Spec.HtmlText
 namespace PlasVerif.Driver.C12
 open PlasVerif.Driver PlasVerif.Model.Escape PlasVerif.Spec.HtmlText
@@ -86,6 +87,25 @@ def handle : List String → String
       let exp := calls.map fun c => if c.1 then "M" else showNats c.2
       s!"{" | ".intercalate (outs.map showNats)}\t{" | ".intercalate exp}"
     | none => "bad-op"
+  | "flt" :: src :: fl :: ws =>
+    let src? : Option PlasVerif.Model.TemplateExpr.Src := match src with | "r" => some .rendered | "w" => some .raw | _ => none
+    let fs? : Option (List PlasVerif.Model.TemplateExpr.Filt) :=
+      if fl == "-" then some [] else (fl.splitOn ",").mapM fun f => match f with | "e" => some .esc | "s" => some .striptags | _ => none
+    match src?, fs?, natList? ws with
+    | some sr, some fs, some s =>
+      let i : PlasVerif.Model.TemplateExpr.Interp := ⟨"", "", sr, fs, .text, true⟩
+      s!"{showNats (PlasVerif.Model.TemplateExpr.emit decode i s)}\t{if PlasVerif.Model.TemplateExpr.safe i then "safe" else "-"}"
+    | _, _, _ => "bad-op"
+  | "tal" :: src :: via :: mode :: pos :: ws =>
+    let src? : Option PlasVerif.Model.TemplateExpr.Src := match src with | "r" => some .rendered | "w" => some .raw | _ => none
+    let mode? : Option PlasVerif.Model.TemplateExpr.TalMode :=
+      match mode with | "t" => some .text | "s" => some .structure | "d" => some .dropped | _ => none
+    let pos? : Option PlasVerif.Model.TemplateExpr.TalPos := match pos with | "c" => some .content | "a" => some .attr | _ => none
+    match src?, flag? via, mode?, pos?, natList? ws with
+    | some sr, some v, some m, some p, some s =>
+      let i : PlasVerif.Model.TemplateExpr.TalInterp := ⟨"", "", sr, v, m, p, true⟩
+      s!"{showNats (PlasVerif.Model.TemplateExpr.emitTal i s)}\t{if PlasVerif.Model.TemplateExpr.safeTal i then "safe" else "-"}"
+    | _, _, _, _, _ => "bad-op"
   | "tree" :: ws =>
     match parseNode (ws.length + 1) ws with
     | some (n, []) =>
